@@ -351,6 +351,42 @@ Theorem C19_restart_without_writeback_refuted :
 Proof. exact restart_without_writeback_refuted. Qed.
 Print Assumptions C19_restart_without_writeback_refuted.
 
+(** * The cached identifier of a produced block (types/blockchain.go BlockHash + header mutators) *)
+From Verif Require Import Codec.BlockCache Codec.BlockCacheProofs.
+
+(** The identifier is a function of the header VALUE: if every request for it comes after the
+    last header mutator, the identifier of the finished block is the hash of its final header. *)
+Theorem C19_block_id_of_final_header :
+  forall (H : bytes -> bytes), (forall x, H x <> []) ->
+  forall muts asks h,
+  List.forallb is_mutate muts = true -> List.forallb (fun o => negb (is_mutate o)) asks = true ->
+  final_id H false (mk_cblock [] h) (muts ++ asks) = block_hash H (final_header H false (mk_cblock [] h) (muts ++ asks)).
+Proof. exact block_id_of_final_header. Qed.
+Print Assumptions C19_block_id_of_final_header.
+
+(** The code as it is: ONE earlier request (a log line) and the identifier stays the hash of
+    the unfinished header; it then misses the fields set afterwards. *)
+Theorem C19_early_id_is_stale_refuted : forall (H : bytes -> bytes) h n,
+  H (block_digest_input h) <> [] ->
+  final_id H false (mk_cblock [] h) [AskId; Mutate (set_confirms n)] = block_hash H h.
+Proof. exact early_id_is_stale_refuted. Qed.
+Print Assumptions C19_early_id_is_stale_refuted.
+
+Theorem C19_early_id_misses_confirms : forall (H : bytes -> bytes) h n,
+  H (block_digest_input h) <> [] -> h_confirms h <> n -> (n < 2 ^ 64)%N -> header_wf h ->
+  final_id H false (mk_cblock [] h) [AskId; Mutate (set_confirms n)] <>
+  block_hash H (final_header H false (mk_cblock [] h) [AskId; Mutate (set_confirms n)]) \/ collision H.
+Proof. exact early_id_misses_confirms. Qed.
+Print Assumptions C19_early_id_misses_confirms.
+
+(** With mutators that clear the cached field (proposed repair) it holds for ANY order of
+    requests and mutators. *)
+Theorem C19_block_id_of_final_header_invalidating :
+  forall (H : bytes -> bytes), (forall x, H x <> []) ->
+  forall ops b, consistent H b -> final_id H true b ops = block_hash H (final_header H true b ops).
+Proof. exact block_id_of_final_header_invalidating. Qed.
+Print Assumptions C19_block_id_of_final_header_invalidating.
+
 (** * Event bloom filters (state/block.go AddReceipt, types/receipt.go BloomFilter) *)
 From Verif Require Import Codec.Bloom Codec.BloomProofs.
 
